@@ -90,13 +90,37 @@ def gen_cases(rng, tier):
         yield one_case(rng, pairs, sched_style=rng.choice(["greedy", "random"]), bufslack=rng.choice([0, 3, 900]))[0], ["preamble", "big", "multi-record", "long-prefix"]
 
 
+def huge_junk_case(rng, P, pad, sched):
+    """an ignored record (unknown type, or a stream record of a foreign request id) whose content + padding exceeds 65535 bytes BETWEEN
+    two Params records, on a buffer above 64 KiB, delivered in one read (or in two): the environment must not depend on it"""
+    rid = rng.choice([1, 300])
+    pairs = rand_pairs(rng, 3, 30) + [(list(b"http_x"), list(b"1")), (list(b"HTTP_X"), list(b"2")), ([], list(b"empty-name"))]
+    payload = nv_all(pairs)
+    cut = rng.randrange(1, len(payload))
+    t, jid = rng.choice([(0x63, rng.choice([0, rid])), (STDIN, rid + 1), (DATA, rid + 7)])
+    junk = header(t, jid, P, pad) + [rng.randrange(256) for _ in range(P)] + [rng.choice([0, 1]) for _ in range(pad)]
+    w = (record(BEGIN, rid, [0, rng.choice([1, 3]), 0x41, 0, 0, 0, 0, 0], 0) + record(PARAMS, rid, payload[:cut], rng.choice([0, 5])) + junk
+         + record(PARAMS, rid, payload[cut:], 0) + record(PARAMS, rid, [], rng.choice([0, 7])) + record(STDIN, rid, [], 0))
+    return case("req_run", [rng.choice([70000, 131072])], [5], w, sched), ["preamble", "junk", "huge-junk", "multi-record"]
+
+
+_gen_cases_c01 = gen_cases
+
+
+def gen_cases(rng, tier):
+    yield from _gen_cases_c01(rng, tier)
+    for (P, pad) in ((65535, 255), (65300, 250), (65281, 255), (65535, 1)) if tier != "quick" else ((65535, 255), (65300, 250)):
+        for sched in ([], [10 ** 6], [rng.randrange(65000, 66000), 10 ** 6]):
+            yield huge_junk_case(rng, P, pad, sched)
+
+
 def nontrivial(line, tags):
     return any(t in tags for t in ("junk", "multi-record", "chunked", "lossy-boundary"))
 
 
 def min_classes(tier):
     q = tier == "quick"
-    return {"every-cut": 200 if q else 5000, "junk": 100, "chunked": 200, "long-prefix": 100, "big": 3, "lossy": 100}
+    return {"every-cut": 200 if q else 5000, "junk": 100, "chunked": 200, "long-prefix": 100, "big": 3, "lossy": 100, "huge-junk": 6}
 
 
 def oracle(line, impl_line):
